@@ -36,7 +36,14 @@ class YamlModels(Models):
         ins(r"<FormattedDuration as ToString>::to_string|<humantime::FormattedDuration as ToString>::to_string", lambda c, m, a: StringBuf(list(as_str(a[0]).chars)))
         ins(r"Path::to_string_lossy|PathBuf::to_string_lossy", lambda c, m, a: Agg("Cow", "Borrowed", [as_str(deref(a[0]))]))
         ins(r"<PathBuf as Deref>::deref", lambda c, m, a: a[0])
-        ins(r"core::str::<impl str>::to_lowercase", lambda c, m, a: StringBuf(list(as_str(a[0]).chars)))
+        def to_lowercase(c, m, a):
+            out = []
+            for ch in as_str(a[0]).chars:
+                if not ch.concrete:
+                    raise Unsupported("to_lowercase of symbolic text")
+                out.append(SInt(ord(chr(ch.v).lower()) if len(chr(ch.v).lower()) == 1 else ch.v, "char"))
+            return StringBuf(out)
+        ins(r"core::str::<impl str>::to_lowercase", to_lowercase)
 
 
 def sym_text(ctx, name, n, alphabet):
@@ -189,6 +196,90 @@ def h_durations():
     return h
 
 
+CODES = [0, 7, 80, 255, -1, 2147483647]
+
+
+def h_scalars():
+    """every scalar key of the one-line form: written iff set, with the spelling the reader understands"""
+    from mir_exec import SymEnum, ENUMS
+
+    def mk(oi, ci):
+        return lambda ctx: setup(ctx, oi, ci)
+
+    def setup(ctx, oi, ci):
+        # values are concrete (they are formatted as text): one input per stream / code, Booleans forked; presence stays symbolic
+        names = ENUMS["OutputStreamControl"]
+        from mir_exec import mk_int as _mi
+        bools = {n: SBool(ctx.decide(ctx.sym_bool(n).z())) for n in ("det", "crlf", "ansi")}
+        so = lambda name, payload: SymOpt(ctx.sym_bool(name + "_set"), payload)
+        cfg = mk_struct("TestCaseConfig", detached=so("det", bools["det"]), environment=MapBuf([]), keep_crlf=so("crlf", bools["crlf"]),
+                        output_stream=so("osc", Agg("OutputStreamControl", names[oi], [])), skip_document_code=so("skip", _mi(CODES[ci] & 0xFFFFFFFF, "i32")),
+                        strip_ansi_escaping=so("ansi", bools["ansi"]), timeout=none(), wait=none())
+        ctx.notes["cfg"] = cfg
+        ctx.notes["values"] = {"detached": bools["det"].v, "keep_crlf": bools["crlf"].v, "strip_ansi_escaping": bools["ansi"].v,
+                               "output_stream": names[oi].lower(), "skip_document_code": CODES[ci]}
+        return [new_ref(cfg)]
+
+    def post(ctx, args, kind, value):
+        if kind != "return":
+            return False
+        from mir_models import to_symopt
+        text = "".join(chr(c.v) if c.concrete else "?" for c in as_str(value).chars)
+        if not (text.startswith("{") and text.endswith("}")):
+            return False
+        parts = [p for p in text[1:-1].split(", ") if p]
+        got = {}
+        for p_ in parts:
+            if ": " not in p_:
+                return False
+            k, v = p_.split(": ", 1)
+            if k in got:
+                return False
+            got[k] = v
+        cfg = ctx.notes["cfg"]
+        conds = []
+        osc_names = [n.lower() for n in ENUMS["OutputStreamControl"]]
+        for key in ("detached", "keep_crlf", "strip_ansi_escaping", "output_stream", "skip_document_code"):
+            o = to_symopt(field_of(cfg, key))
+            present = o.present.z()
+            if key not in got:
+                conds.append(z3.Not(present))
+                continue
+            conds.append(present)
+            want = ctx.notes["values"][key]
+            want = ("true" if want else "false") if isinstance(want, bool) else str(want)
+            if got[key] != want:
+                return False
+        if set(got) - {"detached", "keep_crlf", "strip_ansi_escaping", "output_stream", "skip_document_code"}:
+            return False
+        return z3.And(conds)
+    inputs = [("stream=%s code=%d, every subset of the keys, both Booleans" % (ENUMS["OutputStreamControl"][oi], CODES[ci]), mk(oi, ci))
+              for oi in range(len(ENUMS["OutputStreamControl"])) for ci in range(len(CODES))]
+    h = e2.Harness("one_liner_scalar_keys", "TestCaseConfig::to_yaml_one_liner", inputs, post,
+                   native="one_liner_roundtrip", judge=lambda a, k, v: (False, "", ""),
+                   describe="detached / keep_crlf / strip_ansi_escaping / output_stream / skip_document_code are written iff set, as `key: value` with "
+                            "true|false, the lower-case stream name and the decimal code",
+                   bound="every subset of the five keys; both Booleans, all three streams, codes %s" % CODES)
+    h.models_cls = YamlModels
+    return h
+
+
+def replay_scalars(rep, h, res):
+    from props.c16 import tcc_to_json
+    for model, r in res.raw_witnesses[:4]:
+        w = {k: v for k, v in tcc_to_json(r.ctx.notes["cfg"], model).items() if k in ("detached", "keep_crlf", "strip_ansi_escaping", "output_stream", "skip_document_code")}
+        if isinstance(w.get("skip_document_code"), int) and w["skip_document_code"] >= 1 << 31:
+            w["skip_document_code"] -= 1 << 32
+        nk, nv = NAT.call("one_liner_roundtrip", [w])
+        if nk != "return" or not nv.get("equal"):
+            rep.violation("one-liner:scalar:%s" % "+".join(sorted(k for k, v in w.items() if v is not None)),
+                          "configuration %s does not survive to_yaml_one_liner → parse: rendered %r, read back %s"
+                          % (w, nv.get("rendered") if isinstance(nv, dict) else nv, nv.get("parsed") if isinstance(nv, dict) else ""),
+                          {"kind": "eval", "fn": "one_liner_roundtrip", "args": [w], "native": [nk, nv], "harness": h.name})
+        else:
+            rep.mismatches.append("%s: solver witness %s did not reproduce natively: %s" % (h.name, w, nv))
+
+
 def replay_durations(rep, h, res):
     for model, r in res.raw_witnesses[:4]:
         t, w = r.ctx.notes["durations"]
@@ -254,6 +345,10 @@ def run(pid, tier):
         res = e2.run_with_raw(prog, h)
         replay(rep, h, res, kind)
         e2.record(rep, h, res)
+    hs = h_scalars()
+    ress = e2.run_with_raw(prog, hs)
+    replay_scalars(rep, hs, ress)
+    e2.record(rep, hs, ress)
     hd = h_durations()
     resd = e2.run_with_raw(prog, hd)
     replay_durations(rep, hd, resd)
